@@ -28,7 +28,8 @@ RULE = ("table = packed structured dtype of 1-5 fields (binary: i1..u8,f4,f8,boo
         "3-field table through all bracket styles, binary and text. "
         "Non-trivial: the selection is a proper subset or a re-ordering of rows or columns, or has a repeat, a "
         "negative scalar, a negative / out-of-range / empty slice bound, or uses split/reduce, or is a rejected "
-        "row list. Distinct = distinct case JSON.")
+        "row list. Distinct = distinct case JSON."
+        " Also: near-progression row lists (a progression with moved interior elements, a range with a hole), every subset of >=2 rows of an 8-row table enumerated (thorough: also 10 rows), one-element index arrays, wide fields (rows up to 70 kB) and per-field byte order; the index arrays handed to the read are compared before/after.")
 ASSUMPTIONS = [
     "text tables hold letter/digit strings only (no leading blanks, no delimiter characters): those inputs "
     "belong to C04, whose known scan defect would otherwise be re-reported here",
